@@ -35,9 +35,11 @@ structure RInv (done : List (Nat × TypeDef)) (st : RState) : Prop where
   len : st.newTypeStruct.length = done.length
   mapDef : ∀ k v, (k, v) ∈ done → ∃ m, Map.lookup st.typeMapping k = some m ∧ Map.lookup st.newTypeStruct m = some v
   mapDom : ∀ k m, Map.lookup st.typeMapping k = some m → k ∈ done.map (·.1)
+  newDom : ∀ m, m ∈ Map.keys st.newTypeStruct → ∃ k, k ∈ done.map (·.1) ∧ Map.lookup st.typeMapping k = some m
 
 theorem RInv.init : RInv [] {} :=
-  ⟨by simp [Map.Sorted, Map.keys], rfl, (by intro k v h; cases h), (by intro k m h; simp [Map.lookup] at h)⟩
+  ⟨by simp [Map.Sorted, Map.keys], rfl, (by intro k v h; cases h), (by intro k m h; simp [Map.lookup] at h),
+   (by intro m h; cases h)⟩
 
 theorem RInv.step (sequence : Bool) (rnd : Nat → Nat) (fuel : Nat) (done : List (Nat × TypeDef)) (st st' : RState)
     (e : Nat × TypeDef) (hinv : RInv done st) (hnew : e.1 ∉ done.map (·.1))
@@ -50,7 +52,7 @@ theorem RInv.step (sequence : Bool) (rnd : Nat → Nat) (fuel : Nat) (done : Lis
     simp only [Option.some.injEq] at hs
     have hfree : Map.lookup st.newTypeStruct m = none := collide_free _ _ _ _ _ _ _ _ hc
     subst hs
-    refine ⟨Map.insert_sorted _ _ _ hinv.sorted, ?_, ?_, ?_⟩
+    refine ⟨Map.insert_sorted _ _ _ hinv.sorted, ?_, ?_, ?_, ?_⟩
     · simp only [Map.length_insert_new _ _ _ hfree, hinv.len, List.length_append, List.length_singleton]
     · intro k v hkv
       simp only [List.mem_append, List.mem_singleton] at hkv
@@ -72,6 +74,13 @@ theorem RInv.step (sequence : Bool) (rnd : Nat → Nat) (fuel : Nat) (done : Lis
       · exact Or.inr he
       · rw [Map.lookup_insert_ne _ _ _ _ he] at hk
         exact Or.inl (hinv.mapDom k m0 hk)
+    · intro m0 hm0
+      simp only [List.map_append, List.map_cons, List.map_nil, List.mem_append, List.mem_singleton]
+      rcases (Map.mem_keys_insert _ _ _ _).1 hm0 with rfl | hm0
+      · exact ⟨e.1, Or.inr rfl, Map.lookup_insert_self _ _ _⟩
+      · obtain ⟨k, hk1, hk2⟩ := hinv.newDom m0 hm0
+        have hne : k ≠ e.1 := fun h => hnew (h ▸ hk1)
+        exact ⟨k, Or.inl hk1, by rw [Map.lookup_insert_ne _ _ _ _ hne]; exact hk2⟩
 
 theorem runKeys_inv (P : List (Nat × TypeDef) → RState → Prop) (sequence : Bool) (rnd : Nat → Nat) (fuel : Nat)
     (hstep : ∀ done st st' e, P done st → e.1 ∉ done.map (·.1) → stepKey sequence rnd fuel st e = some st' →
@@ -222,5 +231,276 @@ theorem clean_foldr (l p : List HWc) (off : Nat) (hp : p.length = off) :
       simp only [sectionIdxs, hm, if_false, List.filter_cons, hb, if_true]
       rw [hcat, ih (p ++ [c]) (off + 1) (by simp [hp])]
       simp
+
+/-! ## per-component form of "resolved definition unchanged" -/
+
+theorem all_zip_map {α : Type} (l : List α) (f : α → α) (P : α × α → Bool) (h : ∀ c ∈ l, P (c, f c) = true) :
+    (l.zip (l.map f)).all P = true := by
+  induction l with
+  | nil => rfl
+  | cons a r ih =>
+    simp only [List.map_cons, List.zip_cons_cons, List.all_cons, Bool.and_eq_true]
+    exact ⟨h a List.mem_cons_self, ih (fun c hc => h c (List.mem_cons_of_mem _ hc))⟩
+
+/-- a component whose type is indexed resolves to the same definition after renumbering — any mode, any order,
+any random stream, whatever else the topology contains -/
+theorem resolved_indexed_kept (order : List (Nat × TypeDef)) (st : RState) (t : Topology) (hinv : RInv order st)
+    (ho : order.Perm t.ti) (c : HWc) (hz : c.type ≠ 0) (v : TypeDef) (hv : Spec.Topo.base t c.type = some v) :
+    Spec.Topo.resolved { t with ti := st.newTypeStruct, tiNil := false, hwc := t.hwc.map (remapHWc st.typeMapping) }
+      (remapHWc st.typeMapping c) = Spec.Topo.resolved t c := by
+  rw [← lookup_eq_base] at hv
+  have hmem : (c.type, v) ∈ order := (ho.mem_iff).2 (Map.mem_of_lookup t.ti c.type v hv)
+  obtain ⟨m, hm1, hm2⟩ := hinv.mapDef c.type v hmem
+  have e1 : remapHWc st.typeMapping c = { c with type := m } := by simp [remapHWc, hz, hm1]
+  rw [e1]
+  simp only [Spec.Topo.resolved, ← lookup_eq_base, hm2, hv]
+
+/-- a disabled component (type 0) keeps its (empty-based) definition when 0 is a type number neither before nor after -/
+theorem resolved_type0_kept (st : RState) (t : Topology) (c : HWc) (hz : c.type = 0)
+    (h0 : Map.lookup t.ti 0 = none) (h0' : Map.lookup st.newTypeStruct 0 = none) :
+    Spec.Topo.resolved { t with ti := st.newTypeStruct, tiNil := false, hwc := t.hwc.map (remapHWc st.typeMapping) }
+      (remapHWc st.typeMapping c) = Spec.Topo.resolved t c := by
+  have e1 : remapHWc st.typeMapping c = c := by simp [remapHWc, hz]
+  rw [e1]
+  simp only [Spec.Topo.resolved, ← lookup_eq_base, hz, h0, h0']
+
+theorem keys_contains_zero (t : Topology) : (Spec.Topo.keys t).contains 0 = false → Map.lookup t.ti 0 = none := by
+  intro h
+  rw [Map.lookup_none_iff]
+  intro hm
+  have : (Spec.Topo.keys t).contains 0 = true := by
+    simp only [List.contains_iff_mem]; exact hm
+  rw [this] at h; cases h
+
+theorem compKept_all (order : List (Nat × TypeDef)) (st : RState) (t : Topology) (hinv : RInv order st)
+    (ho : order.Perm t.ti) (h0' : Map.lookup st.newTypeStruct 0 = none) :
+    let t' : Topology := { t with ti := st.newTypeStruct, tiNil := false, hwc := t.hwc.map (remapHWc st.typeMapping) }
+    (t.hwc.zip t'.hwc).all (fun cc => Spec.Topo.compKept t t' cc.1 cc.2) = true := by
+  intro t'
+  apply all_zip_map
+  intro c _
+  simp only [Spec.Topo.compKept]
+  by_cases hz : c.type = 0
+  · simp only [hz, if_true, Bool.or_eq_true, beq_iff_eq]
+    cases hk : (Spec.Topo.keys t).contains 0 with
+    | true => exact Or.inl rfl
+    | false =>
+      refine Or.inr ?_
+      exact resolved_type0_kept st t c hz (keys_contains_zero t hk) h0'
+  · simp only [hz, if_false, Bool.or_eq_true, beq_iff_eq]
+    cases hb : Spec.Topo.base t c.type with
+    | none => exact Or.inl rfl
+    | some v => exact Or.inr (resolved_indexed_kept order st t hinv ho c hz v hb)
+
+/-! ## random mode: distinct draws never collide -/
+
+/-- every id handed out so far is a value drawn at an earlier position -/
+def DrawnInv (rnd : Nat → Nat) (st : RState) : Prop :=
+  ∀ k ∈ Map.keys st.newTypeStruct, ∃ p, p < st.pos ∧ k = rnd p
+
+theorem stepKey_random_inj (rnd : Nat → Nat) (hinj : ∀ i j, rnd i = rnd j → i = j) (fuel : Nat) (hf : 1 ≤ fuel)
+    (st : RState) (e : Nat × TypeDef) (hinv : DrawnInv rnd st) :
+    ∃ st', stepKey false rnd fuel st e = some st' ∧ DrawnInv rnd st' := by
+  obtain ⟨f, rfl⟩ : ∃ f, fuel = f + 1 := ⟨fuel - 1, by omega⟩
+  have hc : Map.contains st.newTypeStruct (rnd st.pos) = false := by
+    cases h : Map.contains st.newTypeStruct (rnd st.pos) with
+    | false => rfl
+    | true =>
+      rw [contains_iff] at h
+      obtain ⟨p, hp, he⟩ := hinv _ h
+      have := hinj _ _ he
+      omega
+  unfold stepKey
+  simp only [Bool.false_eq_true, if_false, collide, hc]
+  refine ⟨_, rfl, ?_⟩
+  intro k hk
+  simp only at hk
+  rcases (Map.mem_keys_insert _ _ _ _).1 hk with rfl | hk
+  · exact ⟨st.pos, by simp, rfl⟩
+  · obtain ⟨p, hp, he⟩ := hinv k hk
+    exact ⟨p, by simp only; omega, he⟩
+
+theorem runKeys_random_inj (rnd : Nat → Nat) (hinj : ∀ i j, rnd i = rnd j → i = j) (fuel : Nat) (hf : 1 ≤ fuel)
+    (l : List (Nat × TypeDef)) (st : RState) (hinv : DrawnInv rnd st) :
+    ∃ st', runKeys false rnd fuel st l = some st' ∧ DrawnInv rnd st' := by
+  induction l generalizing st with
+  | nil => exact ⟨st, rfl, hinv⟩
+  | cons e r ih =>
+    obtain ⟨st1, hs, h1⟩ := stepKey_random_inj rnd hinj fuel hf st e hinv
+    obtain ⟨st2, hr, h2⟩ := ih st1 h1
+    exact ⟨st2, by simp only [runKeys, hs, hr], h2⟩
+
+theorem DrawnInv.init (rnd : Nat → Nat) : DrawnInv rnd {} := by
+  intro k hk; cases hk
+
+/-! ## random mode: a stream that keeps producing fresh values ends every collision loop -/
+
+/-- whatever finite set of ids is taken, the stream yields a value outside it from every position on -/
+def Fair (rnd : Nat → Nat) : Prop := ∀ (S : List Nat) (p : Nat), ∃ d, rnd (p + d) ∉ S
+
+theorem collide_mono (sequence : Bool) (rnd : Nat → Nat) (new : Map TypeDef) (f f' m seq pos : Nat) (hle : f ≤ f')
+    (r : Nat × Nat × Nat) (h : collide sequence rnd new f m seq pos = some r) :
+    collide sequence rnd new f' m seq pos = some r := by
+  induction f generalizing f' m seq pos with
+  | zero => simp [collide] at h
+  | succ n ih =>
+    obtain ⟨g, rfl⟩ : ∃ g, f' = g + 1 := ⟨f' - 1, by omega⟩
+    simp only [collide] at h ⊢
+    by_cases hc : Map.contains new m = true
+    · simp only [hc, if_true] at h ⊢
+      cases sequence with
+      | true => simp only [if_true] at h ⊢; exact ih _ _ _ _ (by omega) h
+      | false => simp only [Bool.false_eq_true, if_false] at h ⊢; exact ih _ _ _ _ (by omega) h
+    · simp only [hc, Bool.false_eq_true, if_false] at h ⊢; exact h
+
+theorem collide_fair (rnd : Nat → Nat) (new : Map TypeDef) (d m seq pos : Nat)
+    (hfree : Map.contains new (rnd (pos + d)) = false) :
+    ∃ r, collide false rnd new (d + 2) m seq pos = some r := by
+  induction d generalizing m pos with
+  | zero =>
+    simp only [collide, Bool.false_eq_true, if_false]
+    by_cases hc : Map.contains new m = true
+    · simp only [hc, if_true]
+      have : Map.contains new (rnd pos) = false := by simpa using hfree
+      simp [this]
+    · simp [hc]
+  | succ n ih =>
+    have e : n + 1 + 2 = (n + 2) + 1 := by omega
+    rw [e]
+    simp only [collide, Bool.false_eq_true, if_false]
+    by_cases hc : Map.contains new m = true
+    · simp only [hc, if_true]
+      exact ih (rnd pos) (pos + 1) (by rw [← hfree]; congr 2; omega)
+    · simp [hc]
+
+theorem stepKey_mono (sequence : Bool) (rnd : Nat → Nat) (f f' : Nat) (hle : f ≤ f') (st st' : RState) (e : Nat × TypeDef)
+    (h : stepKey sequence rnd f st e = some st') : stepKey sequence rnd f' st e = some st' := by
+  unfold stepKey at h ⊢
+  simp only at h ⊢
+  split at h
+  · cases h
+  · rename_i m seq pos hc
+    rw [collide_mono _ _ _ f f' _ _ _ hle _ hc]
+    exact h
+
+theorem runKeys_mono (sequence : Bool) (rnd : Nat → Nat) (f f' : Nat) (hle : f ≤ f') (l : List (Nat × TypeDef))
+    (st st' : RState) (h : runKeys sequence rnd f st l = some st') : runKeys sequence rnd f' st l = some st' := by
+  induction l generalizing st with
+  | nil => exact h
+  | cons e r ih =>
+    simp only [runKeys] at h ⊢
+    split at h
+    · cases h
+    · rename_i st1 hs
+      rw [stepKey_mono _ _ f f' hle _ _ _ hs]
+      exact ih st1 h
+
+theorem runKeys_fair (rnd : Nat → Nat) (hfair : Fair rnd) (l : List (Nat × TypeDef)) (st : RState) :
+    ∃ fuel st', runKeys false rnd fuel st l = some st' := by
+  induction l generalizing st with
+  | nil => exact ⟨0, st, rfl⟩
+  | cons e r ih =>
+    obtain ⟨d, hd⟩ := hfair (Map.keys st.newTypeStruct) (st.pos + 1)
+    have hfree : Map.contains st.newTypeStruct (rnd (st.pos + 1 + d)) = false := by
+      cases h : Map.contains st.newTypeStruct (rnd (st.pos + 1 + d)) with
+      | false => rfl
+      | true => rw [contains_iff] at h; exact absurd h hd
+    obtain ⟨c, hc⟩ := collide_fair rnd st.newTypeStruct d (rnd st.pos) st.seq (st.pos + 1) hfree
+    have hs : ∃ st1, stepKey false rnd (d + 2) st e = some st1 := by
+      unfold stepKey
+      simp only [Bool.false_eq_true, if_false, hc]
+      exact ⟨_, rfl⟩
+    obtain ⟨st1, hs1⟩ := hs
+    obtain ⟨f2, st2, h2⟩ := ih st1
+    refine ⟨max (d + 2) f2, st2, ?_⟩
+    simp only [runKeys, stepKey_mono false rnd (d + 2) _ (Nat.le_max_left _ _) st st1 e hs1]
+    exact runKeys_mono false rnd f2 _ (Nat.le_max_right _ _) r st1 st2 h2
+
+theorem fair_of_injective (rnd : Nat → Nat) (hinj : ∀ i j, rnd i = rnd j → i = j) : Fair rnd := by
+  intro S
+  induction S with
+  | nil => intro p; exact ⟨0, by simp⟩
+  | cons a S ih =>
+    intro p
+    obtain ⟨d, hd⟩ := ih p
+    by_cases ha : rnd (p + d) = a
+    · -- the value a is used up at position p + d; look beyond it
+      obtain ⟨d2, hd2⟩ := ih (p + d + 1)
+      refine ⟨d + 1 + d2, ?_⟩
+      have e : p + (d + 1 + d2) = p + d + 1 + d2 := by omega
+      rw [e]
+      simp only [List.mem_cons, not_or]
+      refine ⟨fun h => ?_, hd2⟩
+      have := hinj _ _ (h.trans ha.symm)
+      omega
+    · exact ⟨d, by simp only [List.mem_cons, not_or]; exact ⟨ha, hd⟩⟩
+
+/-! ## renumbering followed by section removal -/
+
+/-- sequential mode, fewer types than the marker number: a component carries the marker number afterwards exactly
+when it carried it before **and** the marker number was not a type of the index -/
+theorem seq_marker_iff (order : List (Nat × TypeDef)) (st : RState) (t : Topology) (hinv : RInv order st)
+    (hk : Map.keys st.newTypeStruct = List.range' 1 order.length) (ho : order.Perm t.ti)
+    (hn : order.length < Gen.sectionType) (c : HWc) :
+    (remapHWc st.typeMapping c).type = Gen.sectionType ↔
+      (c.type = Gen.sectionType ∧ Spec.Topo.base t Gen.sectionType = none) := by
+  have hsec : Gen.sectionType ≠ 0 := by decide
+  unfold remapHWc
+  by_cases hz : c.type = 0
+  · simp only [hz, ne_eq, not_true_eq_false, if_false]
+    constructor
+    · intro h; exact absurd h.symm hsec
+    · intro h; exact absurd h.1.symm hsec
+  · simp only [ne_eq, hz, not_false_eq_true, if_true]
+    cases hl : Map.lookup st.typeMapping c.type with
+    | some m =>
+      simp only
+      -- a handed-out id is one of 1..n, hence below the marker number
+      have hdom := hinv.mapDom c.type m hl
+      obtain ⟨⟨k, v⟩, hkv, hkk⟩ := List.mem_map.1 hdom
+      simp only at hkk
+      subst hkk
+      obtain ⟨m', hm1, hm2⟩ := hinv.mapDef c.type v hkv
+      rw [hl] at hm1
+      cases hm1
+      have hmk : m ∈ Map.keys st.newTypeStruct := (Map.lookup_isSome_iff _ _).1 (by rw [hm2]; rfl)
+      rw [hk, List.mem_range'_1] at hmk
+      constructor
+      · intro h; omega
+      · rintro ⟨h1, h2⟩
+        -- the type is indexed (it was renumbered), so the marker number was indexed: contradiction
+        have hkt : c.type ∈ Map.keys t.ti := List.mem_map.2 ⟨(c.type, v), (ho.mem_iff).1 hkv, rfl⟩
+        have hsome := (Map.lookup_isSome_iff t.ti c.type).2 hkt
+        rw [lookup_eq_base, h1, h2] at hsome
+        cases hsome
+    | none =>
+      simp only
+      constructor
+      · intro h
+        refine ⟨h, ?_⟩
+        cases hb : Spec.Topo.base t Gen.sectionType with
+        | none => rfl
+        | some v =>
+          rw [← lookup_eq_base] at hb
+          have hmem : (Gen.sectionType, v) ∈ order := (ho.mem_iff).2 (Map.mem_of_lookup t.ti _ v hb)
+          obtain ⟨m, hm1, _⟩ := hinv.mapDef _ v hmem
+          rw [← h, hl] at hm1
+          cases hm1
+      · intro h; exact h.1
+
+/-- with at least as many types as the marker number, sequential renumbering hands the marker number to some
+indexed type: every component of that type becomes a "section marker" -/
+theorem seq_marker_handed_out (order : List (Nat × TypeDef)) (st : RState) (hinv : RInv order st)
+    (hk : Map.keys st.newTypeStruct = List.range' 1 order.length) (hn : Gen.sectionType ≤ order.length) :
+    ∃ k, k ∈ order.map (·.1) ∧ ∀ c : HWc, c.type = k → k ≠ 0 → (remapHWc st.typeMapping c).type = Gen.sectionType := by
+  have hm : Gen.sectionType ∈ Map.keys st.newTypeStruct := by
+    rw [hk, List.mem_range'_1]
+    have : 1 ≤ Gen.sectionType := by decide
+    omega
+  obtain ⟨k, hk1, hk2⟩ := hinv.newDom _ hm
+  refine ⟨k, hk1, ?_⟩
+  intro c hc hz
+  subst hc
+  simp [remapHWc, hz, hk2]
 
 end RawPanelVerif.Topo
